@@ -342,6 +342,10 @@ impl Gen for W {
         W(s.u8())
     }
 }
+/// a value of any type for `#[default(..)]` expressions of generic fields (never evaluated: the programs that use it only look at which impls exist)
+pub fn mk_any<X>() -> X {
+    loop {}
+}
 /// a bound that mentions `Self` in a type's parameter list (`struct T<A: Bnd<Self>>`): implemented by the generated programs for exactly the intended `Self`
 pub trait Bnd<X: ?Sized> {}
 /// the (non-commutative) result of operator `code` on payloads a, b
